@@ -1,8 +1,11 @@
 """C10 (scalar part) — MTBDD terminal arithmetic: I64 saturating extended-integer arithmetic, F64 IEEE-754 with NaN / signed zero normalised."""
 import json
 import os
+import random
 import re
 import vf
+import ddgen
+from checks import ddcommon
 
 META = {
     "title": "MTBDD terminal arithmetic (I64, F64): exact/saturating integer results, IEEE-754 floats with NaN and -0 normalised, short-cut laws of terminal_bin",
@@ -132,13 +135,18 @@ def run(ctx):
             samples = [{"case": h, "evaluations": impl.get(h, ops)[:12]} for h, ops in pick]
         if bad:
             report_bad(ctx, binp, drv, cases, bad, seen)
-    ctx.samples = samples
-    ctx.stats["distinct_nontrivial"] = len(distinct)
+    # ---- function level: MTBDD<I64> diagrams on the real manager (DD harness) ----
+    fl_cases = function_level_cases(ctx)
+    fl_ok, fl_bad = ddcommon.run_dd(ctx, ["C10"], fl_cases, rule="", proofs=False, write_ev=False)
+    ctx.samples = samples + [{"case": h, "ops": ops[:10]} for h, ops in fl_cases[:1] + fl_cases[-1:]]
+    ctx.stats["distinct_nontrivial"] = len(distinct) + len({tuple(o) for _, o in fl_cases})
     vf.write_evidence(
         ctx, "proof",
         rule="one evaluation = one line `op a [b]` on I64 or F64 (add, sub, mul, div, partial_cmp, ==, is_zero/is_one/is_nan, F64::from, zero()/one()/nan()); all pairs of the boundary sets (I64: 0, +-1, +-2, 3, -7, MIN, MIN+1, MAX, MAX-1, +-2^31, +-2^32, +-2^62, floor/ceil sqrt(MAX), +-inf, NaN; F64: +-0, subnormals, +-inf, NaNs with payloads, MAX, MIN_POSITIVE, 1, 1+-ulp, 2^53, ...) plus random pairs (50 000 per type and part; quick 1 part, thorough 20 parts) mixing small, near-overflow, power-of-two-neighbourhood and full-range values (I64) resp. subnormal, near-overflow/underflow, cancelling and arbitrary bit patterns (F64); corpus/C10 first; non-trivial = add/sub/mul/div/cmp whose operands are not both zero; distinct = distinct (type, op, operands) lines (counted by hash)",
         checker_cmd="make -C coq Props/C10.vo (coqc 8.16.1, Flocq 4.1.0) + Print Assumptions audit; ./check C10",
         extra_cov={"cases_ok": total_ok, "cases_bad": total_bad, "tier": ctx.tier,
+                   "function_level_cases_ok": fl_ok, "function_level_cases_bad": len(fl_bad),
+                   "function_level_rule": "MTBDD<I64> managers: all 121 one-variable functions with terminals from {0,1,-1,2,3,-7,MIN,MAX,+inf,-inf,nan}, every ordered pair under add/sub/mul/div/min/max (both variable orders); random functions over 1..4 variables, histories issuing different operators back to back on the same operands, ite with 0-1-valued conditions, restrict, constant, var, eval, gc and reordering in between; every result lifted to a snapshot, value tables computed by the extracted interpreter, expected values by the extracted I64 model applied pointwise",
                    "evaluations": int(ctx.stats.get("evals", 0)),
                    "cases": int(ctx.stats.get("cases", 0)),
                    "refuted_shortcut_arms": ["terminal_bin Sub: (Terminal(zero), _) => g  [C10_i64_sub_zero_l_refuted, C10_f64_sub_zero_l_refuted]",
@@ -148,9 +156,24 @@ def run(ctx):
                      "the hardware FPU / rustc's f64 arithmetic is compared with Flocq's binary64 on the sampled bit patterns only"])
 
 
+def function_level_cases(ctx):
+    rng = random.Random(ctx.seed * 7919 + 10)
+    thorough = ctx.tier == "thorough"
+    cases = []
+    cid = 0
+    for op in ddgen.MT_OPS:
+        for sw in ((False, True) if thorough else (rng.random() < 0.5,)):
+            cases.append(ddgen.mt_case_pairs_1var(f"mp{cid}", op, sw)); cid += 1
+    for _ in range(1500 if thorough else 120):
+        cases.append(ddgen.mt_case_history(f"mh{cid}", rng, threads=rng.choice([1, 1, 4]))); cid += 1
+    return cases
+
+
 def replay(ctx, path):
-    binp, drv = build(ctx)
     r = json.load(open(path))
+    if "kind=mtbdd" in r.get("case_header", ""):
+        return ddcommon.replay_dd(ctx, path)
+    binp, drv = build(ctx)
     f = os.path.join(ctx.workdir, "replay.txt")
     vf.write_cases(f, [(r["case_header"], r["ops"])])
     ok, bad = vf.lockstep(ctx, binp, drv, f, tag="-replay")
